@@ -212,7 +212,8 @@ def add_property(doc: Dict[str, Any], rnd: random.Random) -> str:
 
 NAME_POOL = ["from", "class", "import", "global", "in", "is", "type", "match", "async", "ref", "event", "namespace", "params", "object",
              "self", "None", "fn", "struct", "string", "default", "base", "lambda", "yield", "crate", "enum", "const",
-             "alpha", "beta", "gamma", "kind", "uri", "range", "textDocument", "workDoneToken", "data", "value", "label", "id"]
+             "alpha", "beta", "gamma", "kind", "uri", "range", "textDocument", "workDoneToken", "data", "value", "label", "id",
+             "position", "location", "locationLink", "rangeLength", "text", "name", "method", "params", "result", "items", "jsonrpc"]
 
 
 def _b(n: str) -> Dict[str, Any]:
@@ -583,13 +584,55 @@ def add_regexp_union(doc: Dict[str, Any], rnd: random.Random) -> str:
     return "add_regexp_union"
 
 
-SAFE_EDITS += [add_and_registration_options, add_and_registration_options]
+def add_literal_in_positions(doc: Dict[str, Any], rnd: random.Random) -> str:
+    """Anonymous literals where generated names must be derived from their own property names: inside an
+    `or` alias, as array element, as property — with 1-3 properties drawn from the pool (which includes
+    the 'positional' names range / position / location / text that name-derivation code treats specially)."""
+    tag = _fresh(rnd, "")
+
+    def lit() -> Dict[str, Any]:
+        names = rnd.sample(["position", "location", "range", "text", "rangeLength", "locationLink"] + NAME_POOL[:12], rnd.randint(1, 3))
+        if rnd.random() < 0.5:
+            names = rnd.sample(["position", "location", "range", "text", "rangeLength", "locationLink"], rnd.randint(1, 3))
+        return {"kind": "literal", "value": {"properties": [{"name": n, "type": _b(rnd.choice(["string", "uinteger", "boolean"]))} for n in names]}}
+
+    how = rnd.choice(["alias_or", "array_prop", "prop", "alias_or"])
+    if how == "alias_or":
+        doc["typeAliases"].append({"name": f"SimLitAlias{tag}", "type": {"kind": "or", "items": [lit(), _b("string")] + ([lit()] if rnd.random() < 0.4 else [])}})
+    elif how == "array_prop":
+        doc["structures"].append({"name": f"SimLitArr{tag}", "properties": [{"name": rnd.choice(NAME_POOL), "type": {"kind": "array", "element": lit()}}]})
+    else:
+        doc["structures"].append({"name": f"SimLitProp{tag}", "properties": [{"name": rnd.choice(NAME_POOL), "type": lit()}, {"name": "second" + tag, "type": lit(), "optional": True}]})
+    return f"add_literal_in_positions:{how}"
+
+
+SAFE_EDITS += [add_and_registration_options, add_and_registration_options, add_literal_in_positions, add_literal_in_positions]
+
+def add_literal_alias(doc: Dict[str, Any], rnd: random.Random) -> str:
+    """A type alias that IS an anonymous literal (rust, dotnet and testdata accept it)."""
+    tag = _fresh(rnd, "")
+    x = rnd.random()
+    if x < 0.45:
+        # names that tie under the usual "pick the longest / shortest / first" rules (equal length)
+        by_len: Dict[int, List[str]] = {}
+        for n in ["position", "location", "range", "text", "rangeLength", "locationLink"] + NAME_POOL:
+            if n not in by_len.setdefault(len(n), []):
+                by_len[len(n)].append(n)
+        group = rnd.choice([g for g in by_len.values() if len(g) >= 2] + [["position", "location"]] * 3)
+        names = rnd.sample(group, 2)
+    elif x < 0.75:
+        names = rnd.sample(["position", "location", "range", "text", "rangeLength", "locationLink"], rnd.randint(1, 3))
+    else:
+        names = rnd.sample(NAME_POOL, rnd.randint(1, 3))
+    doc["typeAliases"].append({"name": f"SimAnchor{tag}", "type": {"kind": "literal", "value": {"properties": [{"name": n, "type": _b(rnd.choice(["string", "uinteger"]))} for n in names]}}})
+    return "add_literal_alias"
+
 
 PLUGIN_EDITS: Dict[str, List[Callable[[Dict[str, Any], random.Random], str]]] = {
     "python": [add_and_notification_params, add_and_notification_params],
-    "testdata": [add_and_message, add_and_message, add_and_message, add_regexp_union, add_and_notification_params],
-    "dotnet": [add_regexp_union, add_regexp_union],
-    "rust": [add_regexp_union, add_regexp_union],
+    "testdata": [add_and_message, add_and_message, add_and_message, add_regexp_union, add_and_notification_params, add_literal_alias],
+    "dotnet": [add_regexp_union, add_regexp_union, add_literal_alias, add_literal_alias],
+    "rust": [add_regexp_union, add_regexp_union, add_literal_alias],
 }
 
 
